@@ -247,7 +247,8 @@ class Project:
                        tuple(sorted((d, mode, m.ver.get(d, 0) == sv) for d, (mode, sv) in m.seen.get(X, {}).items()))))
         dov = tuple(sorted(m.variant.items()))
         dirs = sorted(n for n in self.w.sources if (self.p / n).is_dir() and not (self.p / n).is_symlink())   # sources the user turned into directories
-        return json.dumps([files, canon.db_key(self.p), mk, dov, sorted(m.interrupted)] + ([dirs] if dirs else []),
+        return json.dumps([files, canon.db_key(self.p), mk, dov, sorted(m.interrupted)] + ([dirs] if dirs else []) +
+                          ([["tolerated"] + sorted(m.tolerated)] if m.tolerated else []),
                           sort_keys=True, default=str)
 
 
